@@ -160,7 +160,7 @@ Print Assumptions C03_covers_iff_match_wildcard.
 
 (** with the default policy its answer is [lookup]'s: everything above holds of it *)
 Theorem C03_lookup_x_is_lookup : forall lower is_space sup valid s cap cfg sni ip e,
-  fst (lookup_x lower is_space (select_cert sup valid) s cap cfg sni ip e) =
+  fst (lookup_x lower is_space (select_cert sup valid) true s cap cfg sni ip e) =
   lookup lower is_space sup valid s cap cfg sni ip (env_of lower is_space cfg ip e).
 Proof. exact lookup_x_default. Qed.
 Print Assumptions C03_lookup_x_is_lookup.
@@ -171,13 +171,13 @@ Print Assumptions C03_lookup_x_is_lookup.
     lists a name covering the requested name (its IDNA form; the default name or local IP without
     SNI) exactly or with its first label replaced by "*".  So with the default policy a certificate
     that covers neither is only ever the default name's (no SNI) or the fallback name's. *)
-Theorem C03_lookup_sound_x : forall lower is_space sup valid names_of cap s cfg sni ip e c s',
+Theorem C03_lookup_sound_x : forall lower is_space sup valid names_of cap conn s cfg sni ip e c s',
   Inv names_of cap s -> storage_wf (x_storage e) ->
-  lookup_x lower is_space (select_cert sup valid) s cap cfg sni ip e = (ROk c, s') ->
+  lookup_x lower is_space (select_cert sup valid) conn s cap cfg sni ip e = (ROk c, s') ->
   let n := normalize lower is_space sni in
   (alookup (c_hash c) (cache s) = Some c /\
    ((n <> [] /\ exists san, In san (c_names c) /\ covers san n) \/
-    (n = [] /\ In ip (c_names c)) \/
+    (n = [] /\ conn = true /\ In ip (c_names c)) \/
     (n = [] /\ default_name cfg <> [] /\ In (normalize lower is_space (default_name cfg)) (c_names c)) \/
     (fallback_name cfg <> [] /\ In (normalize lower is_space (fallback_name cfg)) (c_names c)))) \/
   (almost_full cap (length (cache s)) = true /\
@@ -191,9 +191,9 @@ Print Assumptions C03_lookup_sound_x.
 (** the order in which names are offered to selectCert -- local IP, default name (no SNI) or
     exact name, "*.b.c", "*.*.c", ... -- then the fallback name: the first accepted one decides,
     whatever the selection policy *)
-Theorem C03_names_tried_in_order : forall lower is_space sel s cfg sni ip,
-  from_cache_x lower is_space sel s cfg sni ip =
-  first_tried sel s (tried lower is_space cfg sni ip).
+Theorem C03_names_tried_in_order : forall lower is_space sel conn s cfg sni ip,
+  from_cache_x lower is_space sel conn s cfg sni ip =
+  first_tried sel s (tried lower is_space conn cfg sni ip).
 Proof. exact from_cache_x_first_tried. Qed.
 Print Assumptions C03_names_tried_in_order.
 
@@ -202,11 +202,11 @@ Print Assumptions C03_names_tried_in_order.
     it accepted a choice -- offered the certificates listed under that name, all cached ones only if
     none is listed --, or the certificate loaded from storage.  A custom selector may thus answer
     with a certificate that does not cover the name: that is its documented purpose. *)
-Theorem C03_custom_selector_scope : forall lower is_space sup valid names_of cap p s cfg sni ip e c s',
+Theorem C03_custom_selector_scope : forall lower is_space sup valid names_of cap p conn s cfg sni ip e c s',
   Inv names_of cap s ->
-  lookup_x lower is_space (sel_policy sup valid p) s cap cfg sni ip e = (ROk c, s') ->
+  lookup_x lower is_space (sel_policy sup valid p) conn s cap cfg sni ip e = (ROk c, s') ->
   (alookup (c_hash c) (cache s) = Some c /\
-   exists pre v b post, tried lower is_space cfg sni ip = pre ++ (v, b) :: post /\
+   exists pre v b post, tried lower is_space conn cfg sni ip = pre ++ (v, b) :: post /\
      Forall (fun q => sel_policy sup valid p s (fst q) = None) pre /\
      sel_policy sup valid p s v = Some c /\
      (p <> PDefault -> In c (choices_for s v))) \/
@@ -221,14 +221,14 @@ Proof. exact choices_for_listed. Qed.
 Print Assumptions C03_custom_choices_when_listed.
 
 (** complete answer, any policy: if every cached and every stored certificate is complete *)
-Theorem C03_answer_complete_x : forall (complete : cert -> Prop) lower is_space sup valid names_of cap p s cfg sni ip e c s',
+Theorem C03_answer_complete_x : forall (complete : cert -> Prop) lower is_space sup valid names_of cap p conn s cfg sni ip e c s',
   Inv names_of cap s ->
   (forall h x, alookup h (cache s) = Some x -> complete x) ->
   (forall k x, alookup k (x_storage e) = Some x -> complete (sd_cert x)) ->
-  lookup_x lower is_space (sel_policy sup valid p) s cap cfg sni ip e = (ROk c, s') -> complete c.
+  lookup_x lower is_space (sel_policy sup valid p) conn s cap cfg sni ip e = (ROk c, s') -> complete c.
 Proof.
-  intros complete lower is_space sup valid names_of cap p s cfg sni ip e c s' HI Hc Hs H.
-  destruct (custom_selector_scope sup valid names_of cap lower is_space p s cfg sni ip e c s' HI H)
+  intros complete lower is_space sup valid names_of cap p conn s cfg sni ip e c s' HI Hc Hs H.
+  destruct (custom_selector_scope sup valid names_of cap lower is_space p conn s cfg sni ip e c s' HI H)
     as [[Hx _]|(x & (nm & _ & _ & _ & Hl) & _ & ->)]; [eauto|].
   apply load_from_storage_key in Hl. destruct Hl as [k Hk]. eauto.
 Qed.
@@ -243,25 +243,25 @@ Print Assumptions C03_loaded_covers_name.
 
 (** the cache and a lookup: the C12 invariant (index and cache agree, within capacity) survives
     every lookup, whatever the policy; and only the almost-full branch touches the cache *)
-Theorem C03_lookup_preserves_cache_invariant : forall lower is_space sel names_of s cap cfg sni ip e,
+Theorem C03_lookup_preserves_cache_invariant : forall lower is_space sel names_of conn s cap cfg sni ip e,
   Inv names_of cap s ->
   (forall k x, alookup k (x_storage e) = Some x -> wf_cert names_of (sd_cert x)) ->
-  Inv names_of cap (snd (lookup_x lower is_space sel s cap cfg sni ip e)).
+  Inv names_of cap (snd (lookup_x lower is_space sel conn s cap cfg sni ip e)).
 Proof. intros. eapply lookup_x_inv; eauto. Qed.
 Print Assumptions C03_lookup_preserves_cache_invariant.
 
-Theorem C03_lookup_touches_cache_only_when_almost_full : forall lower is_space sel s cap cfg sni ip e,
+Theorem C03_lookup_touches_cache_only_when_almost_full : forall lower is_space sel conn s cap cfg sni ip e,
   almost_full cap (length (cache s)) = false ->
-  snd (lookup_x lower is_space sel s cap cfg sni ip e) = s.
+  snd (lookup_x lower is_space sel conn s cap cfg sni ip e) = s.
 Proof. intros. eapply lookup_x_unchanged; eauto. Qed.
 Print Assumptions C03_lookup_touches_cache_only_when_almost_full.
 
 (** a name that does not qualify (SubjectQualifiesForCert) is refused unless the cache matched:
     no default, no fallback, nothing loaded *)
-Theorem C03_unqualified_name_refused : forall lower is_space sel s cap cfg sni ip e nm,
+Theorem C03_unqualified_name_refused : forall lower is_space sel conn s cap cfg sni ip e nm,
   hello_name lower is_space cfg ip (x_idna e) = Some nm -> subject_qualifies is_space nm = false ->
-  (forall c v, from_cache_x lower is_space sel s cfg sni ip <> Some (c, true, v)) ->
-  lookup_x lower is_space sel s cap cfg sni ip e = (RErr, s).
+  (forall c v, from_cache_x lower is_space sel conn s cfg sni ip <> Some (c, true, v)) ->
+  lookup_x lower is_space sel conn s cap cfg sni ip e = (RErr, s).
 Proof. exact unqualified_refused. Qed.
 Print Assumptions C03_unqualified_name_refused.
 
@@ -370,7 +370,7 @@ Definition ex_L := Cert [76]%N [n_qy] true [100]%N [] 0%Z [].            (* L: q
 Definition ex_W := Cert [87]%N [n_sy] true [100]%N [] 0%Z [].            (* W: *.y, managed, in storage *)
 Definition ex_full := run 1 init [OAdd ex_f None].                       (* capacity 1, holding f.y *)
 Definition ex_lookup_x (st : amap stored) sni :=
-  lookup_x ascii_lower ascii_space (select_cert (fun _ => true) ex_valid) ex_full 1 (Config [] n_fb) sni n_ip
+  lookup_x ascii_lower ascii_space (select_cert (fun _ => true) ex_valid) true ex_full 1 (Config [] n_fb) sni n_ip
            (EnvX (Some sni) st [] (Some [102]%N)).
 
 Example C03_x_hypotheses_satisfiable :
@@ -383,8 +383,12 @@ Example C03_x_hypotheses_satisfiable :
      certificate is served -- although it has just been evicted -- and the cache ends up empty *)
   ex_lookup_x [(n_qy, Stored ex_L false)] n_qy = (ROk ex_f, St [] []) /\
   (* the exact name cannot be read (a storage error, not "not found"): the wildcard variant is not tried *)
-  lookup_x ascii_lower ascii_space (select_cert (fun _ => true) ex_valid) ex_full 1 (Config [] n_fb) n_qy n_ip
+  lookup_x ascii_lower ascii_space (select_cert (fun _ => true) ex_valid) true ex_full 1 (Config [] n_fb) n_qy n_ip
            (EnvX (Some n_qy) [(n_sy, Stored ex_W true)] [n_qy] None) = (ROk ex_f, ex_full) /\
+  (* a ClientHelloInfo without a connection and without SNI: the local IP's certificate is not tried,
+     the name is empty and does not qualify: an error (never a panic: fix 023e424) *)
+  fst (lookup_x ascii_lower ascii_space (select_cert (fun _ => true) ex_valid) false ex_state 0 (Config [] [])
+         [] [] (EnvX (Some []) [] [] None)) = RErr /\
   (* nothing in storage: the fallback, the cache untouched *)
   ex_lookup_x [] n_qy = (ROk ex_f, ex_full) /\
   (* a name that does not qualify: refused although a fallback is configured *)
@@ -392,11 +396,11 @@ Example C03_x_hypotheses_satisfiable :
   (* custom selectors on the 4-certificate cache: "zz.q" is listed nowhere, so all cached
      certificates are offered: the largest hash wins; a refusing selector gives an error; one that
      accepts only supported unexpired choices picks e2 for "a.x" *)
-  fst (lookup_x ascii_lower ascii_space (sel_policy (fun _ => true) ex_valid PMax) ex_state 0 (Config [] [])
+  fst (lookup_x ascii_lower ascii_space (sel_policy (fun _ => true) ex_valid PMax) true ex_state 0 (Config [] [])
          [122; 122; 46; 113]%N n_ip (EnvX (Some [122; 122; 46; 113]%N) [] [] None)) = ROk ex_w /\
-  fst (lookup_x ascii_lower ascii_space (sel_policy (fun _ => true) ex_valid PRefuse) ex_state 0 (Config [] n_fb)
+  fst (lookup_x ascii_lower ascii_space (sel_policy (fun _ => true) ex_valid PRefuse) true ex_state 0 (Config [] n_fb)
          n_ax n_ip (EnvX (Some n_ax) [] [] None)) = RErr /\
-  fst (lookup_x ascii_lower ascii_space (sel_policy (fun _ => true) ex_valid PGoodMin) ex_state 0 (Config [] [])
+  fst (lookup_x ascii_lower ascii_space (sel_policy (fun _ => true) ex_valid PGoodMin) true ex_state 0 (Config [] [])
          n_ax n_ip (EnvX (Some n_ax) [] [] None)) = ROk ex_e2.
 Proof.
   repeat split; try (vm_compute; reflexivity).
